@@ -89,6 +89,12 @@ CLAIMED["C18"] = dict(
    note="Matrix parameters and Blackbird files on disk are not exercised; shared leaf objects are out of scope (documented in-place __mul__).",
    technique="TLA+ model of registration / round trips / preparation algebra + TLC; behaviours replayed through the real construction APIs",
    engine="PqProgram")
+CLAIMED["C17"] = dict(
+   category="model_checking", design_ref="§3 C17",
+   text="PqFermi.tla is an exact fermionic Fock-space semantics on d <= 4 modes over fractions of Z[sqrt2, i]: Jordan-Wigner signs, passive gates by substitution and re-ordering (determinants are derived, not assumed), the documented two-mode squeezer, Ising-XX and controlled-phase action on consecutive modes, and the Majorana covariance matrix computed from the state by its definition. TLC checks NormIsOne, ParityConserved, NumberConserved (passive), SigmaRealAntisymmetric on every reachable state and exports the state and covariance after every gate (depth 2-3, all lattice angles). Replay on both fermionic simulators: Fock state vector, covariance matrix of both, detection probability of all 2^d occupations, probability map sums and 0/1 occupations.",
+   note="Quadratic Hamiltonians (GaussianHamiltonian) are not in the catalogue; gates on consecutive modes only.",
+   technique="exact TLA+ exterior-algebra semantics + TLC invariants; behaviours replayed on both fermionic simulators",
+   engine="PqFermi")
 NOT_APPLICABLE_REASON = {}
 def main():
     checks = []
